@@ -62,6 +62,9 @@ var c27Probe = []byte("PROBE-0123456789")
 type c27Case struct {
 	Slots string `json:"slots"`
 	Alpn  int32  `json:"alpn"`
+	// Ctx1 != "": two-call history on one fresh server instance; context of the first call:
+	// live | cancelled | cancel-at-slot-1..3 (cancelled by the DHT wrapper when that slot is read)
+	Ctx1 string `json:"ctx1,omitempty"`
 }
 
 type c27End struct {
@@ -269,11 +272,70 @@ type c27Outcome struct {
 	Info     map[string]any `json:"info"`
 }
 
+// c27Prep is the DHT content of one case
+type c27Prep struct {
+	host       string
+	over       map[string]bool
+	routeSlots []int
+	nErr       int
+	nEmpty     int
+}
+
+// freshA replaces gateway A by a new server instance (new route cache) on the same DHT
+func (w *c27World) freshA() {
+	old := w.A
+	w.A = newFixture(w.ctx, w.kv, c27ChordA, c27TunA)
+	w.A.tunT.dial = w.dialLocal
+	w.A.chordT.dial = w.dialRemote
+	old.srv.Stop()
+}
+
 func (w *c27World) eval(cs c27Case) c27Outcome {
+	if cs.Ctx1 == "" {
+		return w.attempt(cs, w.prepare(cs), w.ctx, nil)
+	}
+	// history: two DialClient calls for the same hostname on one fresh server instance; the
+	// first under context Ctx1, the second under a live context
+	w.freshA()
+	p := w.prepare(cs)
+	ctx1, cancel1 := context.WithCancel(w.ctx)
+	defer cancel1()
+	var hook func(key string)
+	switch cs.Ctx1 {
+	case "live":
+	case "cancelled":
+		cancel1()
+	case "cancel-at-slot-1", "cancel-at-slot-2", "cancel-at-slot-3":
+		key := tun.RoutingKey(p.host, int(cs.Ctx1[len(cs.Ctx1)-1]-'0'))
+		hook = func(k string) {
+			if k == key {
+				cancel1() // the visitor goes away while the slot lookups are running
+			}
+		}
+	default:
+		return c27Outcome{Problems: []string{"internal-unknown-ctx1"}}
+	}
+	o1 := w.attempt(cs, p, ctx1, hook)
+	o2 := w.attempt(cs, p, w.ctx, nil)
+	out := c27Outcome{Class: o2.Class, D11Kinds: o2.D11Kinds, Info: map[string]any{"slots": cs.Slots, "alpn": cs.Alpn, "ctx1": cs.Ctx1, "call1": o1.Info, "call2": o2.Info}}
+	if cs.Ctx1 == "live" {
+		for _, pr := range o1.Problems {
+			out.Problems = append(out.Problems, "call1:"+pr)
+		}
+		if out.D11Kinds == "" {
+			out.D11Kinds = o1.D11Kinds
+		}
+	}
+	for _, pr := range o2.Problems {
+		out.Problems = append(out.Problems, "call2-after-"+cs.Ctx1+"-call1:"+pr)
+	}
+	return out
+}
+
+func (w *c27World) prepare(cs c27Case) c27Prep {
 	ctx := w.ctx
 	w.n++
 	host := fmt.Sprintf("w%d-n%d.example.com", w.id, w.n)
-	run := &c27Run{slots: cs.Slots, host: host}
 	over := map[string]bool{}
 	var routeSlots []int
 	nErr, nEmpty := 0, 0
@@ -308,9 +370,21 @@ func (w *c27World) eval(cs c27Case) c27Outcome {
 			routeSlots = append(routeSlots, k)
 		}
 	}
+	return c27Prep{host: host, over: over, routeSlots: routeSlots, nErr: nErr, nEmpty: nEmpty}
+}
+
+// attempt is one DialClient call under dialCtx, judged by the single-call oracle of the statement
+func (w *c27World) attempt(cs c27Case, p c27Prep, dialCtx context.Context, onGet func(key string)) c27Outcome {
+	host, over, routeSlots, nErr, nEmpty := p.host, p.over, p.routeSlots, p.nErr, p.nEmpty
+	_ = nErr
+	ctx := dialCtx
+	run := &c27Run{slots: cs.Slots, host: host}
 	w.mu.Lock()
 	w.cur = run
 	w.kv.getHook = func(key string) ([]byte, error, bool) {
+		if onGet != nil {
+			onGet(key)
+		}
 		if over[key] {
 			return nil, errors.New("kv: injected failure"), true
 		}
@@ -529,6 +603,19 @@ func c27(c *report.Check) {
 		alpha, alpns = c27Thorough, []int32{int32(protocol.Link_HTTP), int32(protocol.Link_TCP), int32(protocol.Link_UNKNOWN)}
 	}
 	cases := c27Cases(alpha, alpns)
+	singles := len(cases)
+	// two-call histories on one fresh server instance (reduced route alphabet)
+	halpha := ".aec"
+	if c.Thorough() {
+		halpha = ".abcefg"
+	}
+	c27Ctx1 := []string{"live", "cancelled", "cancel-at-slot-1", "cancel-at-slot-2", "cancel-at-slot-3"}
+	for _, hc := range c27Cases(halpha, alpns[:1]) {
+		for _, m := range c27Ctx1 {
+			hc.Ctx1 = m
+			cases = append(cases, hc)
+		}
+	}
 	outs := make([]c27Outcome, len(cases))
 	const workers = 12
 	var wg sync.WaitGroup
@@ -562,9 +649,12 @@ func c27(c *report.Check) {
 			sink.add("c27:routes-present-none-reachable-reported-not-found:"+o.D11Kinds,
 				fmt.Sprintf("H has routes, every attempt failed (%s, no no-direct), DialClient returned ErrDestinationNotFound instead of ErrTunnelClientNotConnected; first such input: slots=%s alpn=%d %v", o.D11Kinds, cs.Slots, cs.Alpn, o.Info), cs)
 		}
-		dist.See(o.Class+":"+sortedSyms(cs.Slots), o.Info)
+		dist.See(o.Class+":"+sortedSyms(cs.Slots)+":"+cs.Ctx1, o.Info)
 	}
 	c.Set("evaluations", len(cases))
+	c.Set("single_calls", singles)
+	c.Set("histories", len(cases)-singles)
+	c.Set("history_rule", fmt.Sprintf("two DialClient calls for the same hostname on one fresh server instance: |%s|^3 route sets x first-call context {live, already cancelled, cancelled by the DHT wrapper while slot 1/2/3 is read}; the second call (live context) is judged by the single-call oracle, the first only when its context was live; the DHT wrapper fails a Get under a finished context with the context's error, like the real DHT client", halpha))
 	c.Set("distinct_nontrivial", dist.N())
 	c.Set("classes", classes)
 	c.Set("not_found_instead_of_not_connected_inputs", d11)
